@@ -196,6 +196,7 @@ type Verifier struct {
 	specs     *Specs
 	lastExec  *Exec
 	schedMode bool
+	mustFail  map[string]bool
 }
 
 func modeOf(name string) Mode {
